@@ -7,8 +7,8 @@ PID = "C01"
 LEAN_MODULE = "NiVerif.Props.C01"
 NAMESPACE = "Props.C01"
 DRIVER = "drivers/Wfm.lean"
-GEN_MODULES = ["Geometry", "Args"]
-EXTRA_LEAN_MODULES = ["NiVerif.Model.WfmProto", "NiVerif.Props.Args"]
+GEN_MODULES = ["Geometry", "Args", "SrcReads"]
+EXTRA_LEAN_MODULES = ["NiVerif.Model.WfmProto", "NiVerif.Props.Args", "NiVerif.Props.SrcReads", "NiVerif.Py.SrcReads"]
 THEOREMS = ["view_shape", "ctorNew_spec", "ctorArr_spec", "setCapacity_spec", "setCount_spec", "setTiming_spec",
             "writeView_spec", "getData_spec", "increaseCapacity_spec", "appendArray_spec", "copyAll_spec",
             "appendWaveforms_spec", "loadData_spec", "inv_step", "inv_reachable", "view_refines",
@@ -16,7 +16,10 @@ THEOREMS = ["view_shape", "ctorNew_spec", "ctorArr_spec", "setCapacity_spec", "s
             "Proofs.Wfm.window_ok",
             "gen_window_eq_model", "gen_window_inside", "gen_provided_geometry_eq_model", "gen_provided_geometry_invariant", "gen_new_geometry_eq_model",
             "gen_new_geometry_invariant", "gen_set_sample_count_eq_model", "gen_set_capacity_eq_model", "gen_set_capacity_keeps_window",
-            "Props.Args.gen_arg_to_int_spec", "Props.Args.gen_arg_to_int_plain", "Props.Args.gen_arg_to_uint_eq_prelude", "Props.Args.gen_arg_to_uint_plain", "Props.Args.gen_arg_to_uint_kind_independent"]
+            "Props.Args.gen_arg_to_int_spec", "Props.Args.gen_arg_to_int_plain", "Props.Args.gen_arg_to_uint_eq_prelude", "Props.Args.gen_arg_to_uint_plain", "Props.Args.gen_arg_to_uint_kind_independent",
+            # T28: the copying paths read their sources before a resize can make them stale (Gen/SrcReads.lean, Py/SrcReads.lean)
+            "Props.SrcReads.gen_sources_read_safely", "Props.SrcReads.gen_paths_cover", "Props.SrcReads.gen_paths_resize_then_write",
+            "Py.SrcReads.unguarded_read_after_resize_unsafe", "Py.SrcReads.weak_guard_in_loop_unsafe", "Py.SrcReads.conditional_guard_in_loop_unsafe", "Py.SrcReads.conditional_guard_single_write_safe", "Py.SrcReads.guarded_read_safe", "Py.SrcReads.late_guard_unsafe"]
 RULE = ("seeded histories of 1-14 (thorough: up to 40) public calls per object on the four container classes x every "
         "supported raw dtype: construction from sizes or arrays, append of arrays / waveforms / sequences, load_data "
         "with and without copy and with sub-ranges, capacity / sample_count / timing assignment, writes through the data "
